@@ -339,6 +339,30 @@ class Folder:
                 items.append(Item("REP", count=count, body=body_items))
             return
         if k in ("WhileStmt", "DoStmt"):
+            # the counting form of a for loop written as a while: `size_t i = 0; while (i < N) { ...; ++i; }` — the counter is a local
+            # that holds the constant 0 when the loop is entered, the condition compares it with N, the body's last statement increments
+            # it by one, nothing else in the body assigns it or leaves the loop
+            cond = strip(s.get("cond")) if k == "WhileStmt" else None
+            iv = var_ref(cond["lhs"]) if isnode(cond) and cond["k"] == "BinaryOperator" and cond["op"] in ("<", "!=") else None
+            body = s.get("body")
+            stmts = (body.get("c") or []) if isnode(body) and body["k"] == "CompoundStmt" else []
+            last = strip(stmts[-1]) if stmts else None
+            inc_ok = isnode(last) and ((last["k"] == "UnaryOperator" and last["op"] in ("++",) and var_ref(last["sub"]) == iv) or
+                                       (last["k"] == "CompoundAssignOperator" and last["op"] == "+=" and var_ref(last["lhs"]) == iv and const_val(last["rhs"]) == 1))
+            others = [x for st in stmts[:-1] for x in walk(st) if
+                      (x["k"] in ("BreakStmt", "ContinueStmt", "ReturnStmt", "GotoStmt")) or
+                      (x["k"] == "UnaryOperator" and x["op"] in ("++", "--") and var_ref(x["sub"]) == iv) or
+                      (x["k"] in ("BinaryOperator", "CompoundAssignOperator") and x.get("op", "").endswith("=") and
+                       x["op"] not in ("==", "!=", "<=", ">=") and var_ref(x.get("lhs")) == iv)]
+            if iv is not None and self.env.get(iv) == ("c", 0) and inc_ok and not others:
+                count = self.sym(cond["rhs"])
+                self.env[iv] = ("i",)
+                body_items = []
+                for st in stmts[:-1]:
+                    self._stmt(st, body_items)
+                if body_items:
+                    items.append(Item("REP", count=count, body=body_items))
+                return
             body_items = []
             self._stmt(s.get("body"), body_items)
             if body_items:
